@@ -14,6 +14,8 @@ import (
 	"fmt"
 	"io"
 	"io/ioutil"
+	"net/http"
+	"net/http/httptest"
 	"sync"
 	"sync/atomic"
 	"testing"
@@ -256,6 +258,45 @@ func TestVerifC20Client(t *testing.T) {
 		peers.End()
 		st.close()
 		r.Case("client/popped-peer-goes-away-unread", line, true)
+	}
+	// Several SOCKS connections: each one builds its own broker channel (NewSnowflakeClient ->
+	// newBrokerChannelFromConfig) while the rendezvous of an earlier connection is in flight.
+	{
+		srv := httptest.NewServer(http.HandlerFunc(func(w http.ResponseWriter, rq *http.Request) {
+			io.Copy(ioutil.Discard, rq.Body)
+			resp := &messages.ClientPollResponse{Error: messages.StrNoProxies}
+			b, _ := resp.EncodePollResponse()
+			w.Write(b)
+		}))
+		cfg := ClientConfig{BrokerURL: srv.URL + "/", KeepLocalAddresses: true}
+		first, err := newBrokerChannelFromConfig(cfg)
+		if err == nil {
+			var wg sync.WaitGroup
+			stop := make(chan struct{})
+			wg.Add(2)
+			go func() { // the earlier connection keeps polling the broker
+				defer wg.Done()
+				for {
+					select {
+					case <-stop:
+						return
+					default:
+						first.Rendezvous.Exchange([]byte("poll"))
+					}
+				}
+			}()
+			go func() { // new SOCKS connections arrive
+				defer wg.Done()
+				for k := 0; k < r.N(40, 300); k++ {
+					newBrokerChannelFromConfig(cfg)
+					time.Sleep(time.Millisecond)
+				}
+				close(stop)
+			}()
+			wg.Wait()
+			r.Case("client/new-connections-while-a-rendezvous-is-in-flight", "one channel polling the broker while further broker channels are built from the same configuration", true)
+		}
+		srv.Close()
 	}
 	_ = errors.New
 }
